@@ -78,8 +78,9 @@ func fill(r *core.Rand, x *xspec) {
 	}
 }
 
-// genRound draws 1-8 connections of 1-5 exchanges. defect: "" | "f12" | "f12b" puts one exchange
-// of that recorded class into the round.
+// genRound draws 1-8 connections of 1-5 exchanges. target: "" | "f12" (a transport-level CONNECT
+// rejection, the path of the repaired F12: a regression target) | "f40" (a CONNECT answered 101, the
+// recorded class) puts one such exchange into the round.
 func genRound(r *core.Rand, defect string) *roundCase {
 	rc := &roundCase{Kind: "round", Handler: r.Chance(20)}
 	nc := r.Range(1, 8)
@@ -101,15 +102,38 @@ func genRound(r *core.Rand, defect string) *roundCase {
 	}
 	switch defect {
 	case "f12":
-		x := xspec{Kind: core.Pick(r, []string{"f12-plain", "f12-mitm"}), Status: core.Pick(r, []int{403, 407, 502})}
-		if rc.Handler {
-			x.Kind = "f12-plain"
+		n := 1
+		if r.Chance(30) {
+			n = 2 // two on one round, possibly on one connection: the connection is kept after the relay
 		}
+		for i := 0; i < n; i++ {
+			x := xspec{Kind: core.Pick(r, []string{"f12-plain", "f12-plain", "f12-mitm"}), Status: core.Pick(r, []int{403, 407, 502, 503, 302, 429}),
+				Method: core.Pick(r, []string{"GET", "GET", "HEAD", "POST", "OPTIONS"})}
+			if x.Method == "POST" {
+				x.Body = core.Pick(r, []int{0, 1, 300})
+			}
+			if rc.Handler {
+				x.Kind = "f12-plain"
+			}
+			c := &rc.Conns[r.Intn(len(rc.Conns))]
+			// anywhere before a terminal exchange
+			pos := len(c.Exchanges)
+			for j, e := range c.Exchanges {
+				if terminal(e.Kind) {
+					pos = j
+					break
+				}
+			}
+			pos = r.Intn(pos + 1)
+			c.Exchanges = append(c.Exchanges[:pos], append([]xspec{x}, c.Exchanges[pos:]...)...)
+		}
+	case "f40":
 		c := &rc.Conns[r.Intn(len(rc.Conns))]
-		c.Exchanges = append(c.Exchanges, x)
-	case "f12b":
-		c := &rc.Conns[r.Intn(len(rc.Conns))]
-		c.Exchanges = append(c.Exchanges, xspec{Kind: "connect-reject", Status: 101})
+		if r.Chance(35) {
+			c.Exchanges = append(c.Exchanges, xspec{Kind: "f12-plain", Status: 101})
+		} else {
+			c.Exchanges = append(c.Exchanges, xspec{Kind: "connect-reject", Status: 101})
+		}
 	}
 	return rc
 }
@@ -118,7 +142,7 @@ func Run(ctx *core.Ctx) {
 	ctx.SetRule("rounds of 1-8 concurrent client connections of 1-5 exchanges each against a real proxy with a fresh Prometheus registry " +
 		"(basic auth, deny-domains, upstream proxy for some hosts, MITM for some hosts, traffic tracking on): GET/HEAD/POST/PUT/OPTIONS with bodies, " +
 		"origin statuses, 407/403/400 refusals, upstream refused / reset mid-head / reset mid-body / header timeout, CONNECT tunnels direct and through the " +
-		"upstream proxy (ok, dial failure, rejection incl. 101), MITM hand-off with requests inside, 101 upgrade tunnels, client aborts while uploading / " +
+		"upstream proxy (ok, dial failure, rejection incl. 101), requests whose CONNECT the upstream proxy rejects inside the proxy's transport (GET https:// and inside an intercepted session), MITM hand-off with requests inside, 101 upgrade tunnels, client aborts while uploading / " +
 		"downloading / before reading the response (RST and FIN), EOF and garbage before a request, keep-alive reuse; tunnel ends by close/FIN/RST; " +
 		"plus cases on the exported Listener/Dialer: 1-6 accepted and 0-4 dialled connections with byte transfers, each closed by 1-4 goroutines at once " +
 		"(some twice), refused dials, Accept on a closed listener; non-trivial = anything but a single plain request; distinct = distinct case description")
@@ -161,10 +185,10 @@ func Run(ctx *core.Ctx) {
 		r := ctx.Rng.Sub()
 		defect := ""
 		switch {
-		case i%25 == 7:
+		case i%8 == 3:
 			defect = "f12"
 		case i%50 == 13:
-			defect = "f12b"
+			defect = "f40"
 		}
 		rc := genRound(r, defect)
 		if i < 2 {
